@@ -45,3 +45,35 @@ W void w_ser_nonfinite(unsigned which, char* out, size_t cap, Ser* s) {
   arena.reset(); JsonDocument doc(&arena); double v = which == 0 ? FloatTraits<double>::nan() : which == 1 ? FloatTraits<double>::inf() : which == 2 ? -FloatTraits<double>::inf() : 0.0;
   doc.add(v); s->n = serializeJson(doc, out, cap); s->measure = measureJson(doc);
 }
+
+// ---- comparison operators (C18): variant vs C string / scalar in both operand orders, and container equality
+struct Ops { unsigned eq, ne, lt, le, gt, ge, req, rne, rlt, rle, rgt, rge; };
+template <typename A, typename B> static void ops(const A& a, const B& b, Ops* o) {
+  o->eq = a == b; o->ne = a != b; o->lt = a < b; o->le = a <= b; o->gt = a > b; o->ge = a >= b;
+  o->req = b == a; o->rne = b != a; o->rlt = b < a; o->rle = b <= a; o->rgt = b > a; o->rge = b >= a;
+}
+W void w_ops_str_ptr(const char* s, size_t n, const char* lit, Ops* o) { arena.reset(); JsonDocument doc(&arena); doc.set(JsonString(s, n, JsonString::Copied)); ops(doc.as<JsonVariantConst>(), lit, o); }
+W void w_ops_str_var(const char* s, size_t n, const char* t, size_t m, Ops* o) {
+  arena.reset(); JsonDocument d1(&arena), d2(&arena); d1.set(JsonString(s, n, JsonString::Copied)); d2.set(JsonString(t, m, JsonString::Copied));
+  ops(d1.as<JsonVariantConst>(), d2.as<JsonVariantConst>(), o);
+}
+W void w_ops_int_scalar(int64_t v, int32_t k, Ops* o) { arena.reset(); JsonDocument doc(&arena); doc.set(v); ops(doc.as<JsonVariantConst>(), k, o); }
+W void w_ops_uint_var(uint64_t v, int64_t w, Ops* o) { arena.reset(); JsonDocument d1(&arena), d2(&arena); d1.set(v); d2.set(w); ops(d1.as<JsonVariantConst>(), d2.as<JsonVariantConst>(), o); }
+// objects {"a":x,"b":y} vs {"a":z, K:w}: K is "b" or "c"; y / w may be null
+W unsigned w_obj_eq(int32_t x, int32_t y, unsigned ynull, int32_t z, int32_t w, unsigned wnull, unsigned second_key_c, unsigned swap_order) {
+  arena.reset(); JsonDocument d1(&arena), d2(&arena);
+  d1["a"] = x; if (ynull) d1["b"] = nullptr; else d1["b"] = y;
+  const char* k = second_key_c ? "c" : "b";
+  if (swap_order) { if (wnull) d2[k] = nullptr; else d2[k] = w; d2["a"] = z; } else { d2["a"] = z; if (wnull) d2[k] = nullptr; else d2[k] = w; }
+  unsigned r = (d1.as<JsonVariantConst>() == d2.as<JsonVariantConst>()) ? 1u : 0u;
+  r |= (d2.as<JsonVariantConst>() == d1.as<JsonVariantConst>()) ? 2u : 0u;
+  r |= (d1.as<JsonVariantConst>() != d2.as<JsonVariantConst>()) ? 4u : 0u;
+  return r;
+}
+W unsigned w_arr_eq(int32_t x, int32_t y, int32_t z, int32_t w, unsigned n2) {   // [x,y] vs [z,w] or [z]
+  arena.reset(); JsonDocument d1(&arena), d2(&arena);
+  d1.add(x); d1.add(y); d2.add(z); if (n2 == 2) d2.add(w);
+  unsigned r = (d1.as<JsonVariantConst>() == d2.as<JsonVariantConst>()) ? 1u : 0u;
+  r |= (d2.as<JsonVariantConst>() == d1.as<JsonVariantConst>()) ? 2u : 0u;
+  return r;
+}
